@@ -80,6 +80,12 @@ claim("C10", "model-free invariant checking over rapid-generated histories that 
       "any other method -> 404/405 and client state untouched (modulo the remember/expire middlewares that run before routing).",
       TRUST)
 
+claim("C12", "model-based property testing of one-time-secret histories (rapid) against model multisets of unused secrets, copy-semantics storage",
+      WM + "generate / use / replay / clear / regenerate of one-time passwords, recovery codes, SMS login codes and TOTP codes (replay protection on/off) across accounts and browsers, with candidates that include empty values, "
+      "stored hashes replayed as codes and other accounts' live secrets. Oracle: a value is accepted iff it is in the model's unused multiset of the target account; after acceptance storage no longer verifies it while every other unused value still verifies "
+      "and the list shrank by exactly one; never more than five one-time passwords; a final sweep uses every remaining one-time password exactly once.",
+      TRUST)
+
 NOT_YET = "check not built yet in this round (claimed in DESIGN.md; will be claimed once its check is committed)"
 
 def main():
